@@ -286,19 +286,28 @@ class ODF2MoinMoin(object):
             self.listStyles[name] = prop
 
 
+    def _parse(self, data):
+        """ Parses a package member; like the SAX based readers of the library,
+            refuses a document type declaration that names an external subset """
+        doc = defusedxml.minidom.parseString(data)
+        dt = doc.doctype
+        if dt is not None and (dt.systemId or dt.publicId):
+            raise defusedxml.ExternalReferenceForbidden(dt.name, None, dt.systemId, dt.publicId)
+        return doc
+
     def load(self, filepath):
         """ Loads an ODT file. """
 
         zip = zipfile.ZipFile(filepath)
 
-        styles_doc = defusedxml.minidom.parseString(zip.read("styles.xml"))
+        styles_doc = self._parse(zip.read("styles.xml"))
         fontfacedecls = styles_doc.getElementsByTagName("office:font-face-decls")
         if fontfacedecls:
             self.processFontDeclarations(fontfacedecls[0])
         self.processStyles(styles_doc.getElementsByTagName("style:style"))
         self.processListStyles(styles_doc.getElementsByTagName("text:list-style"))
 
-        self.content = defusedxml.minidom.parseString(zip.read("content.xml"))
+        self.content = self._parse(zip.read("content.xml"))
         fontfacedecls = self.content.getElementsByTagName("office:font-face-decls")
         if fontfacedecls:
             self.processFontDeclarations(fontfacedecls[0])
